@@ -160,6 +160,86 @@ pub fn flag_pairs() -> Vec<Scenario> {
     v
 }
 
+/// Failures of extended-attribute and ownership calls are tolerated for the file they hit (C04 says so), and
+/// for that file only: every other file of the run still has to carry its attributes.
+pub fn judge_tolerated_faults(w: &Worker, scen: &Scenario, ex: &Exec) -> Judgement {
+    let mut j = judge(w, scen, ex);
+    let mut hit: Vec<(String, bool)> = vec![]; // (file name, was it an ownership call)
+    for e in ex.res.events.iter().filter(|e| e.inj != 0) {
+        for p in [&e.rel, &e.rel2].into_iter().flatten() {
+            let base = p.rsplit('/').next().unwrap_or(p).to_string();
+            hit.push((base, e.name.contains("chown")));
+        }
+    }
+    j.violations.retain(|m| {
+        !hit.iter().any(|(base, own)| {
+            let about_file = m.contains(&format!("dst/{}:", base)) || m.contains(&format!("dst/{} ", base)) || m.ends_with(&format!("dst/{}", base));
+            about_file && ((m.contains("xattr ") && !*own) || (m.contains("owner of") && *own))
+        })
+    });
+    j
+}
+
+fn tolerated_fault_jobs(ctx: &Ctx) -> (Vec<(std::sync::Arc<Scenario>, RunSpec, usize)>, usize, Vec<String>) {
+    use crate::sup::{Action, Fault};
+    let w = Worker::new(43, &ctx.pool.bins);
+    let mut jobs = vec![];
+    let mut errs = vec![];
+    let mut nsites = 0;
+    for d in drivers() {
+        for wn in ["1", "2"] {
+            for own in [false, true] {
+                for populated in [false, true] {
+                    let mut tree = vec![
+                        Entry::file("a", "0123456789").mode(0o4750).mtime(1_300_000_000, 111).owner(1000, 4242).xattr("user.k", "va").xattr("user.second", "2a"),
+                        Entry::file("b", "").mode(0o604).mtime(1_300_000_001, 222).owner(0, 1000).xattr("user.k", "vb"),
+                        Entry::file("c", "abcdefg").mode(0o2640).mtime(-5, 333).owner(4242, 0).xattr("user.k", "vc").xattr("user.third", "3c"),
+                        Entry::dir("dst"),
+                    ];
+                    if populated {
+                        tree.push(Entry::file("dst/b", "previous b").mode(0o600).mtime(1_200_000_001, 3).owner(7, 8).xattr("user.k", "stale"));
+                    }
+                    let mut args: Vec<&str> = vec!["--driver", d, "-w", wn, "--block-size", "4"];
+                    if own {
+                        args.push("--ownership");
+                    }
+                    args.extend_from_slice(&["a", "b", "c", "dst"]);
+                    let s = Scenario::new(&format!("tolerated-faults-{}-w{}-{}-{}", d, wn, if own { "own" } else { "noown" }, if populated { "populated" } else { "fresh" }), tree, &args);
+                    let sa = std::sync::Arc::new(s.clone());
+                    for base in base_specs() {
+                        let rec = match w.run(&s, &base) {
+                            Ok(r) => r,
+                            Err(e) => {
+                                errs.push(format!("recording run of {}: {}", s.name, e));
+                                continue;
+                            }
+                        };
+                        jobs.push((sa.clone(), base.clone(), 0));
+                        let mut cnt: std::collections::BTreeMap<(usize, String), usize> = std::collections::BTreeMap::new();
+                        for e in &rec.events {
+                            if matches!(e.name.as_str(), "SPAWN" | "DEAD" | "BLOCK" | "WAKE" | "MARK" | "exit_group" | "exit" | "clone" | "clone3") {
+                                continue;
+                            }
+                            let c = cnt.entry((e.th, e.name.clone())).or_insert(0);
+                            *c += 1;
+                            if !(e.name.contains("xattr") || e.name.contains("chown")) {
+                                continue;
+                            }
+                            nsites += 1;
+                            for en in [libc::EPERM, libc::ENOTSUP, libc::ENOSPC, libc::ERANGE] {
+                                let mut sp = base.clone();
+                                sp.faults.push(Fault { call: e.name.clone(), thread: Some(rec.threads[e.th].clone()), nth: Some(*c), path_contains: None, action: Action::Errno(en) });
+                                jobs.push((sa.clone(), sp, 0));
+                            }
+                        }
+                    }
+                }
+            }
+        }
+    }
+    (jobs, nsites, errs)
+}
+
 pub fn run(ctx: &Ctx) -> Report {
     let mut rep = Report::new(
         "model_checking",
@@ -198,6 +278,14 @@ pub fn run(ctx: &Ctx) -> Report {
     // what another one asks for
     let st = scen_batch(ctx, flag_pairs(), &[Policy::P0], j);
     rep.part("all pairs of options x fresh/populated destination x drivers", st, serde_json::json!({}));
+    // a refused attribute or ownership call is tolerated for the file it hits, and only for that file
+    {
+        let (jobs, nsites, errs) = tolerated_fault_jobs(ctx);
+        let jt: Judge = &judge_tolerated_faults;
+        let mut st = explore(&ctx.pool, jobs, jt);
+        st.engine_errors.extend(errs);
+        rep.part("one failing xattr / chown call (EPERM, ENOTSUP, ENOSPC, ERANGE) at each such call of a three-file copy: the other files keep everything", st, serde_json::json!({"sites": nsites}));
+    }
     // schedule search on multi-block files: metadata must survive any completion order of the blocks
     let cj: Judge = &c06::judge;
     for (name, jobs) in sets::schedule_jobs_level(if ctx.quick() { 0 } else { 1 }, &|s| s).into_iter().filter(|(n, _)| n.starts_with("S2") || n.starts_with("S3") || n.starts_with("tiny")) {
